@@ -67,6 +67,66 @@ pub fn run_real(cfg: &Cfg, data: &Arc<Vec<u8>>, frag: FragPlan, pend: PendPlan) 
     }
 }
 
+/// Run the real chunker over a source whose read number `k` fails once with `kind`;
+/// polling continues after an error item. Returns (Ok items, error items, finished).
+pub fn run_real_with_error(cfg: &Cfg, data: &Arc<Vec<u8>>, frag: FragPlan, pend: PendPlan, k: u64, kind: std::io::ErrorKind) -> Result<(Vec<(u64, Vec<u8>)>, usize, bool), String> {
+    let bcfg = gen::to_bitar_config(cfg);
+    let data = data.clone();
+    crate::util::catch(|| {
+        let mut src = FragSource::new(data.clone(), frag, pend);
+        src.err_at = Some((k, kind));
+        let mut stream = bcfg.new_chunker(src);
+        let mut items = Vec::new();
+        let mut errors = 0usize;
+        let budget = 256 + 32 * (data.len() as u64 + 1);
+        let done = block_on_busy(
+            async {
+                while let Some(r) = stream.next().await {
+                    match r {
+                        Ok((off, chunk)) => items.push((off, chunk.data().to_vec())),
+                        Err(_) => {
+                            errors += 1;
+                            if errors > 3 {
+                                break;
+                            }
+                        }
+                    }
+                }
+            },
+            budget,
+        );
+        (items, errors, done.is_some())
+    })
+}
+
+/// With a failing source read the stream may stop early, but only by saying so: every
+/// chunk it does deliver is still the chunk the bytes alone determine, and it never ends
+/// short of the input without having reported an error item.
+pub fn judge_with_error(data: &[u8], items: &[(u64, Vec<u8>)], errors: usize, finished: bool, expect: &[(usize, usize)]) -> Result<(), String> {
+    if !finished {
+        return Err("chunker stream did not finish within its poll budget after a source read error".into());
+    }
+    for (i, (off, bytes)) in items.iter().enumerate() {
+        match expect.get(i) {
+            Some((eo, el)) if *eo as u64 == *off && *el == bytes.len() && data[*eo..*eo + *el] == bytes[..] => {}
+            other => {
+                return Err(format!(
+                    "after a source read error chunk {} is (offset {}, {} bytes) but the bytes alone determine {:?} ({} error item(s) reported)",
+                    i,
+                    off,
+                    bytes.len(),
+                    other,
+                    errors
+                ))
+            }
+        }
+    }
+    if items.len() < expect.len() && errors == 0 {
+        return Err(format!("a source read error was swallowed: the stream ended after {} of {} chunks without reporting it", items.len(), expect.len()));
+    }
+    Ok(())
+}
+
 /// Judge one observed chunk stream. Returns Err(description) on violation.
 pub fn judge(cfg: &Cfg, data: &[u8], obs: &Observed, expect: &[(usize, usize)]) -> Result<(), String> {
     if let Some(p) = &obs.panicked {
@@ -589,6 +649,64 @@ fn f5_class(rep: &Report, seed: u64, cases: usize) {
     merge(rep, locals, "f5_class");
 }
 
+/// One case of engine 5; returns (violation, an error item was reported, all chunks delivered).
+fn source_error_case(seed: u64, i: usize) -> (Option<String>, bool, bool) {
+    let kinds = [std::io::ErrorKind::Interrupted, std::io::ErrorKind::WouldBlock, std::io::ErrorKind::TimedOut, std::io::ErrorKind::Other, std::io::ErrorKind::UnexpectedEof];
+    let mut rng = Rng::new(seed).fork(0xe990 + i as u64);
+    let cfg = gen::gen_small_cfg(&mut rng);
+    let len = rng.urange(1, 6000);
+    let class = *rng.pick(&gen::SRC_CLASSES);
+    let dseed = rng.next_u64();
+    let data = Arc::new(gen::gen_source(&mut Rng::new(dseed), class, len));
+    let expect = r1::chunk(&cfg, &data);
+    let max = *rng.pick(&[1usize, 7, 64, 700, 5000]);
+    let fseed = rng.next_u64();
+    // aim inside the stream most of the time
+    let k = rng.range(0, (len / ((max + 1) / 2).max(1)) as u64 + 1);
+    let kind = *rng.pick(&kinds);
+    let pend = if rng.chance(1, 3) { PendPlan::Every(3) } else { PendPlan::Never };
+    match run_real_with_error(&cfg, &data, FragPlan::Random { seed: fseed, max }, pend, k, kind) {
+        Err(p) => (Some(format!("chunker panicked after a source read error: {}", p)), false, false),
+        Ok((items, errors, finished)) => (
+            judge_with_error(&data, &items, errors, finished, &expect).err().map(|w| format!("{} [{} / {:?} at read {}]", w, cfg.describe(), kind, k)),
+            errors > 0,
+            items.len() == expect.len(),
+        ),
+    }
+}
+
+/// Engine 5: one source read fails once (EINTR, EAGAIN, timeout, other): how the data
+/// arrived includes that it arrived after an error.
+fn source_errors(rep: &Report, seed: u64, cases: usize) {
+    let out = par_map(cases.div_ceil(200), crate::util::ncpu(), |b| {
+        let mut viol = Vec::new();
+        let (mut n, mut reported, mut completed) = (0u64, 0u64, 0u64);
+        for j in 0..200 {
+            let i = b * 200 + j;
+            n += 1;
+            let (v, r, c) = source_error_case(seed, i);
+            reported += r as u64;
+            completed += c as u64;
+            if let Some(w) = v {
+                if viol.len() < 3 {
+                    viol.push((w, i));
+                }
+            }
+        }
+        (n, reported, completed, viol)
+    });
+    for (n, reported, completed, viol) in out {
+        rep.evals(n);
+        rep.count("source_errors.cases", n);
+        rep.count("source_errors.error_item_reported", reported);
+        rep.count("source_errors.all_chunks_delivered", completed);
+        for (w, i) in viol {
+            let class: String = w.split('[').next().unwrap_or("").chars().filter(|c| !c.is_ascii_digit()).take(60).collect();
+            rep.violation(&format!("c09/source-error/{}", class.trim()), json!({"why": w}), json!({"engine": "source_error", "seed": seed, "i": i}));
+        }
+    }
+}
+
 fn merge(rep: &Report, locals: Vec<Local>, engine: &str) {
     let mut evals = 0;
     for l in locals {
@@ -652,6 +770,7 @@ pub fn run(tier: Tier, seed: u64) -> i32 {
     all_splits(&rep, seed ^ 0x77, tier.pick(60, 400), 10);
     random_streams(&rep, seed, tier.pick(16_000, 300_000), tier.pick(200, 300), tier.pick(3 << 20, 5 << 20));
     f5_class(&rep, seed, tier.pick(40_000, 1_000_000));
+    source_errors(&rep, seed, tier.pick(40_000, 1_000_000));
     if tier == Tier::Thorough {
         crate::miri::run_slices(&rep, "chunker", 16, 60, "");
     }
@@ -678,6 +797,19 @@ pub fn run(tier: Tier, seed: u64) -> i32 {
 
 pub fn replay(v: &Value) -> i32 {
     let r = &v["replay"];
+    if r["engine"] == "source_error" {
+        return match source_error_case(r["seed"].as_u64().unwrap_or(1), r["i"].as_u64().unwrap_or(0) as usize).0 {
+            None => {
+                println!("replay: property held on this case");
+                0
+            }
+            Some(e) => {
+                println!("replay: VIOLATED: {}", e);
+                println!("VIOLATION property=C09 replay=(replayed)");
+                1
+            }
+        };
+    }
     let cfg = cfg_from(&r["cfg"]);
     let spec = DataSpec::from_json(&r["data"]);
     let data = Arc::new(spec.build());
